@@ -346,6 +346,8 @@ class Check:
         self.exhaustive = None
         REPLAYS.mkdir(exist_ok=True)
         EVIDENCE.mkdir(exist_ok=True)
+        for old in REPLAYS.glob(f'{pid}-{self.seed}-*.json'):     # replay files of an earlier run with this seed
+            old.unlink()
 
     @property
     def quick(self):
